@@ -421,25 +421,42 @@ func c19Shards(tier string) []mc.Shard {
 						fail("C19.proto-stream", "%s: streamed message %v differs from ToProto %v", c, &sm, m.ToProto())
 					}
 				}
-				// a mapping a few ulps away, read right after this one, must come back as
-				// itself (nothing may be remembered between calls): same behaviour, bit for
-				// bit, as the neighbour built directly
+				// mappings that share some but not all parameters with this one (kind,
+				// base, offset), read right after it, must come back as themselves:
+				// nothing may be remembered between calls, whatever it is keyed by
 				g0, o0 := mapParams(m)
-				nbSpec := MapSpec{Kind: c.Kind, Gamma: math.Nextafter(math.Nextafter(g0, 2), 2), Offset: math.Nextafter(o0, math.Inf(1))}
-				nb := nbSpec.New()
-				var nbb []byte
-				nb.Encode(&nbb)
-				if fl, err := enc.DecodeFlag(&nbb); err == nil {
-					if d, err := mapping.Decode(&nbb, fl); err != nil {
-						fail("C19.binary", "%s: neighbour decode failed: %v", c, err)
-					} else if diff := sameBehaviour(nb, d, nprobe); diff != "" {
-						fail("C19.same-behaviour", "%s: a mapping a few ulps away, decoded right after it, behaves differently from itself: %s", c, diff)
+				g1, o1 := math.Nextafter(math.Nextafter(g0, 2), 2), math.Nextafter(o0, math.Inf(1))
+				for _, fk := range []byte{'G', 'I', 'C'} {
+					for _, fp := range [][2]float64{{g0, o0}, {g0, o0 + 1}, {g0, o1}, {g1, o0}, {g1, o1}} {
+						if fk == c.Kind && fp[0] == g0 && fp[1] == o0 {
+							continue
+						}
+						fs := MapSpec{Kind: fk, Gamma: fp[0], Offset: fp[1]}
+						f := fs.New()
+						res.Evaluations++
+						bb := b
+						if fl, err := enc.DecodeFlag(&bb); err == nil {
+							mapping.Decode(&bb, fl)
+						}
+						var fb []byte
+						f.Encode(&fb)
+						if fl, err := enc.DecodeFlag(&fb); err == nil {
+							if d, err := mapping.Decode(&fb, fl); err != nil {
+								fail("C19.binary", "%s: decoding %s right after it failed: %v", c, fs, err)
+							} else if diff := sameBehaviour(f, d, nprobe/4); diff != "" || !proto.Equal(d.ToProto(), f.ToProto()) || !d.Equals(f) || !f.Equals(d) {
+								fail("C19.same-behaviour", "%s: the mapping %s, decoded right after it, does not come back as itself (%v): %s", c, fs, d.ToProto(), diff)
+							}
+						}
+						mapping.FromProto(m.ToProto())
+						if d, err := mapping.FromProto(f.ToProto()); err != nil {
+							fail("C19.proto", "%s: FromProto of %s right after it failed: %v", c, fs, err)
+						} else if diff := sameBehaviour(f, d, nprobe/4); diff != "" || !proto.Equal(d.ToProto(), f.ToProto()) || !d.Equals(f) || !f.Equals(d) {
+							fail("C19.same-behaviour", "%s: the mapping %s, rebuilt from its message right after it, does not come back as itself (%v): %s", c, fs, d.ToProto(), diff)
+						}
+						if fk != c.Kind && (m.Equals(f) || f.Equals(m)) {
+							fail("C19.kinds-differ", "%s equals %s although the kinds differ", c, fs)
+						}
 					}
-				}
-				if d, err := mapping.FromProto(nb.ToProto()); err != nil {
-					fail("C19.proto", "%s: neighbour FromProto failed: %v", c, err)
-				} else if diff := sameBehaviour(nb, d, nprobe); diff != "" {
-					fail("C19.same-behaviour", "%s: a mapping a few ulps away, rebuilt from its message right after it, behaves differently from itself: %s", c, diff)
 				}
 				for form, r := range forms {
 					if !m.Equals(r) || !r.Equals(m) {
@@ -512,7 +529,7 @@ func init() {
 	})
 	mc.Register(&mc.Property{
 		ID: "C19", Level: "exploration",
-		Rule:        "exhaustive over a grid of 351 mappings (3 kinds x 13 accuracies from 1e-6 to 0.99 x 9 index offsets, built from base and offset): each is sent through the binary form, the protobuf message and the streaming protobuf writer and read back; the result must be Equals both ways and behave identically (Index on a probe lattice across the range, Value and LowerBound bit for bit, range, reported accuracy); accuracy-built and base-built mappings must be equal; ALL 351^2 ordered pairs are checked for reflexivity, symmetry, inequality across kinds and across accuracies 0.1% or more apart, and 'equal implies same indexes'",
+		Rule:        "exhaustive over a grid of 351 mappings (3 kinds x 13 accuracies from 1e-6 to 0.99 x 9 index offsets, built from base and offset): each is sent through the binary form, the protobuf message and the streaming protobuf writer and read back; the result must be Equals both ways and behave identically (Index on a probe lattice across the range, Value and LowerBound bit for bit, range, reported accuracy); accuracy-built and base-built mappings must be equal; each is followed by 14 mappings sharing some but not all of (kind, base, offset) with it, read back right after it, which must come back as themselves, and mappings of another kind with the same base and offset must not be equal to it; ALL 351^2 ordered pairs are checked for reflexivity, symmetry, inequality across kinds and across accuracies 0.1% or more apart, and 'equal implies same indexes'",
 		Assumptions: []string{"behavioural identity is probed on a finite lattice (400 points quick, 2000 thorough) across the indexable range"},
 		Shards:      c19Shards,
 		ShardBudget: budget(80*time.Second, 14*time.Minute),
